@@ -447,6 +447,7 @@ def flow_case(case, outdir):
     svd_small = cfg["kwargs"].get("linear_transform") == "svd" and cfg["d"] < 5 and cfg["ftype"] != "maf"
     nbn = n_batch_norm_layers(cfg)
     data = training_data(cfg, rng)
+    last_finite = True
     for state in STATES:
         if state == "perturbed":
             perturb(fm.model, gen)
@@ -487,10 +488,17 @@ def flow_case(case, outdir):
             continue
         rec.fold()
         if allnan:
-            # weights that this harness perturbed or trained into overflow say nothing about nessai
             res["states"][state] = "all-non-finite"
-            rec.bump("states_all_non_finite_after_perturbation_or_training")
+            if state in ("fresh", "reset_weights", "reset_permutations", "reset_all") and last_finite:
+                # nessai itself produced these weights from a flow that was finite a moment ago
+                rec.problems.append(("C08:flow:non-finite-after-reset_model", f"state={state}: no generated sample has finite coordinates and a finite density, "
+                                     "although the flow was finite before reset_model"))
+            else:
+                # weights that this harness perturbed or trained into overflow say nothing about nessai
+                rec.bump("states_all_non_finite_after_perturbation_or_training")
+            last_finite = False
             continue
+        last_finite = True
         res["states"][state] = "compared" if nt else "not-compared"
         res["nontrivial"] = res["nontrivial"] or bool(nt)
     res.update(problems=rec.problems, metrics=rec.metrics, counts=rec.counts, worst=rec.worst, rounding_worst=rec.rounding_worst, norm_worst=rec.norm_worst)
